@@ -204,8 +204,7 @@ def run_spec(spec, rec=None):
         assign = dict(zip(used, combo))
         ex = tr.executor()
         ov = [wbk.Cell('S', c[0], c[1:], v) for c, v in assign.items() if v is not None]
-        if ov:
-            ex.set_cells(ov)
+        o_set = wbk.outcome(lambda: ex.set_cells(ov)) if ov else ('value', None)
         # a blank assignment means "no override": the workbook constant (if any) applies
         envf = make_env({c: v for c, v in assign.items() if v is not None}, cells)
         for i, (a, f) in enumerate(zip(asts, formulas)):
@@ -222,7 +221,7 @@ def run_spec(spec, rec=None):
                 if rec:
                     rec.count('skipped_error_through_embedding')
                 continue
-            out = tr.get('S', wbk.get_column_letter(8 + i), '1', ex)
+            out = tr.get('S', wbk.get_column_letter(8 + i), '1', ex) if o_set[0] == 'value' else o_set
             trig = sorted(triggers(a))
             if rec:
                 root = a
